@@ -49,7 +49,9 @@ func (c *consumption) Close() error {
 
 	c.closed = true
 	verifhook.Point("consumption.close.flagged", uint32(c.cid))
-	c.recvQueue.Signal()
+	// wake up through the queue lock: a bare Signal is lost when the consume
+	// goroutine is between its closed-check and its blocking Pop
+	c.recvQueue.Push(nil)
 	return nil
 }
 
